@@ -172,10 +172,16 @@ def step(ctx: Any, it: Any, call: str, symbols: tuple = ('s0', 's1')) -> dict:
         avail = 0
         while avail < 2 and len(st) >= avail + 2 and is_pat(st[-2 - avail]):
             avail += 1
-        k = ctx.choose(avail + 1, 'nplugs')
+        # one key more than there are plugs is tried when nothing else lies below them (the toolkit has to refuse:
+        # the emitted Instantiate would underflow the machine's stack)
+        short = avail < 2 and len(st) == avail + 1
+        k = ctx.choose(avail + (2 if short else 1), 'nplugs')
         orders = [o for o in gens.delta_orders(3) if len(o) == k]
         keys = orders[ctx.choose(len(orders), 'keys')]
-        plugs = st[-1 - k : -1] if k else []
+        plugs = list(st[-1 - min(k, avail) : -1]) if k else []
+        if k > avail:
+            plugs.append(plugs[-1] if plugs else P.MetaVar(7))
+            d['missing_plug'] = True
         delta = dict(zip(keys, plugs))
         d['keys'] = list(keys)
         if call == 'instantiate':
